@@ -68,14 +68,22 @@ def run_unit(unit, rec):
                 # layouts: (array, axis argument or None, broadcast wavelength)
                 lay = [("1d", sp, None, wl)]
                 lay.append(("2d-last", np.stack([sp, 2 * sp, -sp]), None, wl))
-                lay.append(("2d-axis0", np.stack([sp, 2 * sp, -sp]).T, 0, wl))
-                lay.append(("2d-axis1", np.stack([sp, 2 * sp]), 1, wl))
-                lay.append(("3d-axis1", np.stack([np.stack([sp, 3 * sp]).T, np.stack([-sp, 0.5 * sp]).T]), 1, wl))
-                lay.append(("3d-axis-1", np.stack([np.stack([sp, 3 * sp]), np.stack([-sp, 0.5 * sp])]), -1, wl))
+                # the wavelength on EVERY axis of rank 2..4 arrays whose other dimensions have distinct sizes
+                for rank in (2, 3, 4):
+                    for a in range(rank):
+                        others = [2, 3, 4][: rank - 1]
+                        mult = np.arange(1, int(np.prod(others)) + 1, dtype=float).reshape(others) * 0.5 - 1.0
+                        full = np.multiply.outer(mult, sp)  # wavelength last
+                        full = np.moveaxis(full, -1, a)
+                        lay.append(("%dd-axis%d" % (rank, a), full, a, wl))
+                        if a == rank - 2:
+                            lay.append(("%dd-axis-2" % rank, full, -2, wl))
                 if k == 1:
                     lay.append(("scalar", float(sp[0] + 1.5), None, float(wl[0])))
                 for lname, arr, axis, w in lay:
-                    if prefix in ("", "nano") and lname not in ("1d", "2d-axis0") and tier == "quick":
+                    if prefix in ("", "nano", "milli") and lname not in ("1d", "2d-axis0") and tier == "quick":
+                        continue
+                    if tier == "quick" and lname.startswith("4d") and sname not in ("combo", "onehot0"):
                         continue
                     for ru in ((None,) if (sname != "combo") else (None, True, False)):
                         arr_np = np.asarray(arr, dtype=float)
